@@ -119,10 +119,10 @@ BOUND = {
              "combines the target only with the un-conditioned other originals",
     "thorough": "refusals / consumers are ordinary members of the alphabet (any position, every target) in all cells of depth <= 3 "
                 "and close a history (every target) in the depth-4 cells; assign is in the alphabet of every factor and special cell "
-                "and of the joint cells of catalogue 0 (tracked factors), stays in force for the whole sub-tree below it in cells of "
-                "depth <= 3 (later operations on an assigned original are compared with a fresh world that received the same "
-                "assignments; the built-with-the-value reference is taken for the first assignment of a history) and closes a history "
-                "in the depth-4 cells; all 20 wrapper-family specials and the 8 wrapj worlds at depth 3 in 3 catalogues (the 6 older "
+                "and of the joint cells of catalogue 0 (tracked factors); it stays in force for the whole sub-tree below it in the "
+                "special cells of depth 3 and in the depth-3 factor cells of catalogue 0 (later operations on an assigned original are "
+                "compared with a fresh world that received the same assignments; the built-with-the-value reference is taken for the "
+                "first assignment of a history) and closes a history in all other cells; all 20 wrapper-family specials and the 8 wrapj worlds at depth 3 in 3 catalogues (the 6 older "
                 "wrapper specials at depth 4 in catalogue 0); the 30 linear Bayesian worlds at depth 3 in 3 catalogues; "
                 "3 value catalogues at depth 3 for every factor and special; joints at depth 3 in catalogue 0 (G3, G9 in all "
                 "catalogues) and depth 2 otherwise; in addition depth 4 for factors with <=2 "
@@ -273,8 +273,12 @@ def cells(tier, seed):
             if q:
                 if wrap or (c["kind"] == "factor" and c["graph"] == "G1" and c["name"] in ("x", "d")):
                     c["assign"] = "leaf"
-            elif c["kind"] != "joint" or c["cat"] == cats[0]:
+            elif c["kind"] == "special":
                 c["assign"] = "full" if c["depth"] <= 3 else "leaf"
+            elif c["kind"] == "factor":
+                c["assign"] = "full" if (c["depth"] <= 3 and c["cat"] == cats[0]) else "leaf"
+            elif c["cat"] == cats[0]:
+                c["assign"] = "leaf"
     # longest cells first (better pool utilisation); order is deterministic
     out.sort(key=lambda c: (-(c.get("depth", 9) * 10 + (5 if c["kind"] == "joint" else 0)), str(sorted(c.items()))))
     return out
@@ -1330,9 +1334,12 @@ class Explorer:
         entry = pre + entry
         if entry.endswith("entries"):
             b, a = [n for n, _ in before], [n for n, _ in after]
-        self.res.fail(sig, "[%s cat=%d] after %s the %s object #%d (%s) changed its '%s': %s -> %s"
+        what = {"": "changed its '%s'", "fresh:": "is not what the same derivation from an original BUILT with the assigned value gives, entry '%s' (built -> assigned)",
+                "view:": "is not the view made now, entry '%s' (made now -> live view)",
+                "restore:": "is not what it was once the old value is assigned back, entry '%s' (before -> restored)"}[pre] % entry[len(pre):]
+        self.res.fail(sig, "[%s cat=%d] after %s the %s object #%d (%s) %s: %s -> %s"
                       % (self.label(), self.cell["cat"], " ; ".join(op_str(w, o) for o in history) or "taking its fingerprint twice",
-                         role, j, cls, entry, _short(b), _short(a)),
+                         role, j, cls, what, _short(b), _short(a)),
                       focus={"history": [op_str(w, o) for o in history], "altered_object": j, "entry": entry},
                       before=b, after=a, latent_log=latent_log)
 
